@@ -32,7 +32,7 @@ def main():
         if rc:
             print(out); return 2
         demo_src = open(demo).read()
-        demo_src = re.sub(r"/tmp/w[t345678]_C\d+", wt, demo_src)
+        demo_src = re.sub(r"/tmp/w[t3-9]_[A-Z]\w*", wt, demo_src)
         dpath = os.path.join(wt, '_seed_demo.py')
         open(dpath, 'w').write(demo_src)
         rc, out = sh(f'timeout 120 {PY} {dpath}', cwd=wt)
